@@ -4,6 +4,13 @@ Proof: Props/C06.lean over `Totals.analyze` (hand model of analyze_transactions'
 GENERATED categorize_amount / normalize_amount.  Tie: translator (every run) + correspondence of
 `analyze_transactions` against the model on generated transaction lists, bit-for-bit.
 Oracle on the implementation alone: one-bucket rule, conservation sums, permutation and partition.
+
+"Contains the special tag" (oracle `spec_bucket`, theorem `one_bucket`): some tag t of the transaction satisfies
+`t.lower() == 'income'` (resp. 'investment', 'transfer') — exact membership after lower-casing.  The property text
+says "case-insensitively" and nothing about blanks, separators or look-alike characters; where it is silent the
+oracle mirrors the unchanged code: no stripping, no prefix / word matching, `str.lower` (not casefold, no Unicode
+normalisation).  So ' income', 'income-tax', 'transfer fee', 'incomes', 'reinvestment', 'İncome', 'tranſfer',
+'ｉｎｃｏｍｅ' are ORDINARY tags.  The generator produces such near-miss tags systematically (`near_miss`).
 """
 import datetime
 import json
@@ -23,6 +30,74 @@ def rand_case(r, variant):
     return r.choice([s, s.upper(), s.capitalize(), s[0] + s[1:].upper()])
 
 
+# ---- near-miss tags: everything that LOOKS like a special tag but is not one (see module docstring)
+SEPS = ['-', ' ', ':', '/', '.', '_', ',', ';', '&', '+', '|', '#', '(', '=', '*', '!', '?', "'", '\t', '\n', '\u00a0', '\u2013', '  ', ' - ']
+SUFFIXES = ['tax', 'fee', 'fees', 'other', 'out', 'in', '2024', '1', 'x', 'Ünï', 'income', 'transfer', 'investment']
+PREFIXES = ['net', 'gross', 'non', 'no', 'wire', 'my', 'other', '2024', 'x', 'é']
+DERIVED = {'income': ['incomes', 'incom', 'ncome', 'incomee', 'incoming', 'incometax', 'myincome', 'in come', 'in-come'],
+           'investment': ['investments', 'investmen', 'nvestment', 'reinvestment', 'investmentfee', 'invest', 'investing', 'invest ment'],
+           'transfer': ['transfers', 'transfe', 'ransfer', 'transferwise', 'transferred', 'transfer2', 'xtransfer', 'trans fer', 'trans-fer']}
+BLANKS = [' ', '  ', '\t', '\n', '\r\n', '\u00a0', '\u2003', '\u200b', '\ufeff', '\x0b']
+# one character replaced by something a reader (or a careless normaliser) could take for it
+LOOKALIKE = {'i': ['\u0130', '\u0131', '\u0456', '\u00ed', '\uff49', 'l', '1'], 'n': ['\u00f1', '\uff4e', '\u0578'], 'c': ['\u0441', '\u00e7', '\uff43'],
+             'o': ['\u043e', '\u03bf', '0', '\u00f6', '\uff4f'], 'm': ['\uff4d', 'rn'], 'e': ['\u0435', '\u00e9', '\uff45', '3'],
+             'v': ['\u03bd', '\uff56'], 's': ['\u017f', '\u0455', '\uff53', '5', '$'], 't': ['\u0442', '\uff54', '7'],
+             'r': ['\u0433', '\uff52'], 'a': ['\u0430', '\u00e0', '\uff41', '@'], 'f': ['\uff46', '\u017f']}
+NEAR_FORMS = ['word+sep+suffix', 'prefix+sep+word', 'blank+word', 'word+blank', 'blank+word+blank', 'derived', 'lookalike',
+              'fullwidth', 'combining', 'doubled', 'two-specials-joined']
+
+
+def near_miss(r):
+    """(tag, form): a tag built from a special word (any letter case) that must NOT count as that special tag."""
+    w = r.choice(SPECIAL)
+    form = r.choice(NEAR_FORMS)
+
+    def cased(x):
+        return r.choice([x, x, x.upper(), x.capitalize(), x[:1] + x[1:].upper()])
+    if form == 'word+sep+suffix':
+        t = cased(w) + r.choice(SEPS) + r.choice(SUFFIXES + [''])
+    elif form == 'prefix+sep+word':
+        t = r.choice(PREFIXES + ['']) + r.choice(SEPS) + cased(w)
+    elif form == 'blank+word':
+        t = r.choice(BLANKS) + cased(w)
+    elif form == 'word+blank':
+        t = cased(w) + r.choice(BLANKS)
+    elif form == 'blank+word+blank':
+        t = r.choice(BLANKS) + cased(w) + r.choice(BLANKS)
+    elif form == 'derived':
+        t = cased(r.choice(DERIVED[w]))
+    elif form == 'lookalike':
+        i = r.randrange(len(w))
+        t = cased(w[:i]) + r.choice(LOOKALIKE[w[i]]) + cased(w[i + 1:]) if r.random() < 0.5 else w[:i] + r.choice(LOOKALIKE[w[i]]) + w[i + 1:]
+    elif form == 'fullwidth':
+        t = ''.join(chr(ord(c) - 0x61 + 0xff41) if r.random() < 0.7 else c for c in w)
+        t = t if t != w else chr(ord(w[0]) - 0x61 + 0xff41) + w[1:]
+    elif form == 'combining':
+        i = r.randrange(1, len(w) + 1)
+        t = cased(w[:i]) + r.choice(['\u0301', '\u0307', '\u200d', '\u00ad']) + w[i:]
+    elif form == 'doubled':
+        t = cased(w) + r.choice(['', ' ', ',']) + cased(w)
+    else:
+        t = cased(w) + r.choice([',', ' ', '/', '+', ', ']) + cased(r.choice(SPECIAL))
+    FORM_COUNT[form] = FORM_COUNT.get(form, 0) + 1
+    return t, form
+
+
+FORM_COUNT = {}
+
+
+def is_special(tag):
+    return tag.lower() in SPECIAL
+
+
+def gen_tags(r):
+    tags = []
+    for _ in range(r.choice([0, 0, 1, 1, 2, 3])):
+        k = r.random()
+        tags.append(rand_case(r, 0) if k < 0.4 else near_miss(r)[0] if k < 0.75 else r.choice(ORD))
+    return tags
+
+
 def gen_txn(r, dyadic):
     k = r.random()
     if k < 0.1:
@@ -35,9 +110,7 @@ def gen_txn(r, dyadic):
     if tags_kind < 0.12:   # (tags=None never reaches analyze_transactions: the pipeline always supplies a list)
         tags = 'missing'
     else:
-        tags = []
-        for _ in range(r.choice([0, 0, 1, 1, 2, 3])):
-            tags.append(rand_case(r, 0) if r.random() < 0.55 else r.choice(ORD))
+        tags = gen_tags(r)
     c = r.choice(CATS)
     d = datetime.date(r.choice([2024, 2025]), r.randint(1, 12), r.randint(1, 28))
     return {'amount': a, 'tags': tags, 'merchant': r.choice(MERCH), 'category': c[0], 'subcategory': c[1], 'date': d}
@@ -154,6 +227,12 @@ def run(ctx):
     lo = common.lean_phase(ctx, 'TallyVerif.Props.C06', regen.regen_classification)
     n = 600 if ctx.quick else 30000
     r = ctx.rng
+    FORM_COUNT.clear()
+    # the generator's own ground truth against the oracle's notion of "special": every near-miss is an ordinary tag
+    nm = [near_miss(r) for _ in range(1500 if ctx.quick else 30000)]
+    nm_bad = [[t, f] for t, f in nm if is_special(t) or spec_bucket(1.0, [t]) != 'spending' or spec_bucket(-1.0, [t]) != 'credits']
+    ctx.obligation('harness:near-miss-tags-are-ordinary-under-the-oracle', 'correspondence', not nm_bad,
+                   cases=len(nm), error=json.dumps(nm_bad[:3]) if nm_bad else None)
     lists = []
     if ctx.replay:
         rp = json.loads(common.read(ctx.replay))
@@ -200,11 +279,26 @@ def run(ctx):
     ctx.cov['evaluations'] = len(cases)
     ctx.cov['traces_validated_against_impl'] = len(cases)
     ctx.cov['distinct_nontrivial'] = len({json.dumps(c['txns']) for c, (l, _) in zip(cases, lists) if nontrivial(l)})
+    def decided_by_near_miss(t):
+        tg = [] if t['tags'] in (None, 'missing') else t['tags']
+        return any(not is_special(x) and any(w[:4] in x.lower() or w[-4:] in x.lower() for w in SPECIAL) for x in tg)
+    all_txns = [t for l, _ in lists for t in l]
+    nm_txns = [t for t in all_txns if decided_by_near_miss(t)]
+    nm_only = [t for t in nm_txns if spec_bucket(t['amount'], t['tags']) in ('spending', 'credits')]
     ctx.cov['rule'] = ('random transaction lists (sizes 0–40; amounts dyadic k/64 so that float sums are exact, every 4th list '
-                       '2-decimal; tags missing / None / [] / special tags in four letter cases mixed with ordinary ones; merchant, '
-                       'category and month collisions); implementation figures compared bit-for-bit with the Lean model; on dyadic '
-                       'lists the property oracle (one bucket, conservation, counts, permutation, partition) runs on the implementation; '
-                       'non-trivial = at least 3 distinct buckets hit and a repeated merchant')
+                       '2-decimal; tags missing / None / [] / special tags in four letter cases mixed with ordinary ones and with '
+                       'NEAR-MISS tags built from the special words: word+separator+suffix ("income-tax", "Transfer fee", '
+                       '"investment:fees"), prefix+separator+word, surrounding blanks incl. NBSP / zero-width / BOM, plural and '
+                       'derived forms, one letter replaced by a Unicode or ASCII look-alike, full-width letters, combining marks, '
+                       'doubled and joined special words; merchant, category and month collisions); implementation figures compared '
+                       'bit-for-bit with the Lean model; on dyadic lists the property oracle (one bucket, conservation, counts, '
+                       'permutation, partition) runs on the implementation; "contains the special tag" = some tag t with '
+                       't.lower() equal to the word (exact membership, no stripping: the property text is silent on blanks, the '
+                       'oracle mirrors the unchanged code); non-trivial = at least 3 distinct buckets hit and a repeated merchant')
+    ctx.notes['near_miss_tags'] = {'generated_by_form': dict(sorted(FORM_COUNT.items())),
+                                   'transactions_carrying_one': len(nm_txns),
+                                   'of_which_without_genuine_special_tag (bucket must be spending/credits)': len(nm_only),
+                                   'of_all_transactions': len(all_txns)}
     sizes = {}
     for l, _ in lists:
         sizes[len(l)] = sizes.get(len(l), 0) + 1
